@@ -192,6 +192,18 @@ def r12all(text, args, label):
     return r12(text, args, label, every=True)
 
 
+def r4(text, args, label):
+    """(E as T).to_le_bytes()  ->  vf_T_to_le_bytes(E as T)   for T in u16/u32/u64/i32, any bracket-free or
+    singly-bracketed E.  All occurrences; no-op when there is none."""
+    m = mask(text)
+    out, pos = [], 0
+    for mm in re.finditer(r'\(\s*((?:[^()]|\([^()]*\))+?)\s+as\s+(u16|u32|u64|i32)\s*\)\s*\.\s*to_le_bytes\s*\(\s*\)', m):
+        out.append(text[pos:mm.start()])
+        out.append('vf_%s_to_le_bytes(%s as %s)' % (mm.group(2), text[mm.start(1):mm.end(1)], mm.group(2)))
+        pos = mm.end()
+    return ''.join(out) + text[pos:]
+
+
 def r18(text, args, label):
     """for mutator in &self.mutators { B }  ->  index loop over the opaque mutator list:
     let mut vf_k = 0; while vf_k < vf_mutators_len(&self.mutators) { let mutator = vf_mutator_at(&self.mutators, vf_k); vf_k += 1; B }
@@ -303,7 +315,7 @@ def r14(text, args, label):
     return ''.join(out)
 
 
-RULES = {'R18': r18, 'R17': r17, 'R16': r16, 'R15': r15, 'R12ALL': r12all, 'R14': r14, 'R1': r1, 'R2': r2, 'R3': r3, 'R11': r11, 'R12': r12}
+RULES = {'R4': r4, 'R18': r18, 'R17': r17, 'R16': r16, 'R15': r15, 'R12ALL': r12all, 'R14': r14, 'R1': r1, 'R2': r2, 'R3': r3, 'R11': r11, 'R12': r12}
 
 
 def apply(name, text, args, label):
